@@ -20,24 +20,29 @@ RULE = ("every listed function x every optional-parameter variant it offers x im
         "{0, 1, +big, -big, noise, +inf, NaN} (binary: False/True/noise) + the base call repeated at the end; non-trivial = the mask has both in and out pixels, some replacement really changes a "
         "masked-out pixel and the base output is not constant inside the mask; distinct by hash of the case")
 TRUSTED = [
-    "translator tools/gen_maskflow_c12.py (symbolic evaluation of the Python AST -> mask-dataflow term, fail-closed; 36 of "
-    "the 40 functions) and the 4 hand-written terms of tools/maskflow_hand_c12.py (openlines, circular_hough, "
-    "regional_maximum, convex_hull_transform) pinned to normalised-AST hashes (tools/maskflow_pins_c12.json)",
+    "translator tools/gen_maskflow_c12.py (symbolic evaluation of the Python AST -> mask-dataflow program with shared "
+    "definitions, fail-closed; 39 of the 40 functions) and the one hand-written term of tools/maskflow_hand_c12.py "
+    "(regional_maximum, over an abstract structure) pinned to a normalised-AST hash (tools/maskflow_pins_c12.json)",
     "library-symbol locality table of gen_maskflow_c12.py (the interface the theorems quantify over): POINTWISE NumPy "
     "ufuncs/astype/copy; convolve with a literal kxk kernel local with radius k//2 (reflect border reads stay within "
     "that radius); binary_erosion(m, generate_binary_structure(2,2), border_value=0) = Erode 1; GLOBAL = pure functions "
     "of their array arguments (table_lookup, scind.grey_erosion/dilation, gaussian_filter, label, "
     "distance_transform_edt, rank_order, lstsq, index_lookup, helper functions of the three modules, a user-supplied "
     "smoothing function); in-place kernels skeletonize_loop / _filter.median_filter write only their declared argument; "
-    "extract_from_image_lookup(img, i, j) = img at the indexed pixels else 0; a loop is a pure function of the entry "
-    "values of the variables it reads",
+    "extract_from_image_lookup(img, i, j) = img at the indexed pixels else 0",
+    "loop rule: one symbolic iteration with the loop-carried variables as placeholders; the loop's results are pure "
+    "functions of the entry values and of the carry-free sub-terms of that iteration (instances over the iterations "
+    "differ only in image-independent constants, which the checker ignores), pointwise in p when every path from a "
+    "placeholder to the root is pointwise; x[k,:,:] = v builds a stack of image planes, max/min/sum/mean(axis=0) of a "
+    "stack is pointwise; loops with break/continue or data-dependent branches fall back to `pure function of the "
+    "entry values of everything read`",
     "NumPy identities: x[m] = gather(where(m,x,0), m) for boolean m; (x with x[s]:=y)[s] = y; x[~m]=c / x[m]=y[m] as "
-    "where(); x[s1][m[s2]] with literal slices enumerates x at p + start(s1) - start(s2) over the true pixels p of m in "
-    "m's order whenever the code combines it elementwise with a vector gathered by m (NumPy raises otherwise); dtype "
-    "conversions of a mask keep its truthiness",
+    "where(); y[k][m[k]] used under the selector m[k] equals where(m,y,0)[k]; x[s1][m[s2]] with literal slices "
+    "enumerates x at p + start(s1) - start(s2) over the true pixels p of m in m's order whenever the code combines it "
+    "elementwise with a vector gathered by m (NumPy raises otherwise); dtype conversions of a mask keep its truthiness",
     "modelled, not verified: arrays as total functions on Z*Z; determinism of NumPy/SciPy (two runs on equal data give "
-    "equal bits); openlines' angle loop written out for three angles; regional_maximum's term covers full "
-    "(2r+1)x(2r+1) structures of every r (sparse structures are covered by the two-run oracle only)",
+    "equal bits); regional_maximum's hand term: the structure is an abstract offset set, the tie-break an opaque pure "
+    "function of the ties pass",
 ]
 ASSUMPTIONS = ["image and mask have the same 2-d shape; mask is boolean; the smoothing function handed to "
                "smooth_with_function_and_mask is pure"]
@@ -678,7 +683,7 @@ MANIFEST = {
         "EVERY interpretation of the library symbols that respects the declared locality: an accepted program is "
         "non-interfering inside the mask, a program ending in `result[~mask] = image[~mask]` returns its input outside. "
         "On every run a fail-closed translator turns the staged source of the 40 listed functions into such programs "
-        "(36 by symbolic evaluation of the Python AST, 4 hand-written and pinned to the function's normalised-AST hash) and the "
+        "(39 by symbolic evaluation of the Python AST into DAG programs, regional_maximum hand-written over an abstract structure and pinned to its normalised-AST hash) and the "
         "kernel re-checks that every one is accepted (and that the 15 binary operations restore). Dynamically every "
         "function and optional-parameter variant is run on (img, mask) and on images differing outside the mask; the "
         "outputs are compared bit for bit inside the mask (binary family: also outside against the input) through the "
